@@ -187,6 +187,18 @@ def run(ctx):
     r.inst("end-handlers|consumed")
     if cons != ["end_handlers"]:
         r.violate("end-handlers|consumed", f"handle_end runs {cons}; the end handlers must be consumed (run exactly once)", "src/rewriter/handlers_dispatcher.rs")
+    # document-level handlers are registered active, selector-scoped ones inactive (activated by a match only)
+    for fname, want in (("ContentHandlersDispatcher::add_document_content_handlers", "true"), ("ContentHandlersDispatcher::add_selector_associated_handlers", "false")):
+        f = mir.fn(fname)
+        pushes = list(f.calls(r"HandlerVec::push$"))
+        for g in mir.fns:
+            if g.key.startswith(fname + "::{closure"):
+                pushes += [(bi, t) for bi, t in g.calls(r"HandlerVec::push$")]
+        flags = sorted(set(f.describe_operand(t["args"][2]).split(":")[0].replace("const ", "") for bi, t in pushes))
+        key = fname.split("::")[-1] + "|initial-activity"
+        r.inst(key, sample={"pushes": len(pushes), "flags": flags})
+        if len(pushes) < 3 or flags != [want]:
+            r.violate(key, f"{fname} registers handlers with initial activity {flags} (expected all `{want}`): document-level handlers (incl. the end handler) must always run, selector-scoped ones only between a match and the element's end tag", f.loc())
     # stop_matching is driven only by elements the VM pops
     callers = sorted(set(f.key.split("::{closure")[0] for f, bi, t in mir.callers_of(r"ContentHandlersDispatcher::stop_matching$") if not mir.is_test_fn(f)))
     r.inst("stop_matching|callers", sample={"callers": callers})
